@@ -3,6 +3,7 @@
 // "rt" events start from a packed word p:      v = unpack(p), p2 = pack(v), v2 = unpack(p2)
 // "pk" events start from a real vector x:      p = pack(x), u = unpack(p)
 #include "common.hpp"
+#include <new>
 #include <glm/packing.hpp>
 #include <glm/gtc/packing.hpp>
 #include <functional>
@@ -60,15 +61,23 @@ template<class V> std::vector<V> real_inputs(const std::vector<double>& scales, 
     return out;
 }
 
+// An object at the least alignment its type guarantees (address = alignof(V) modulo 64): the vector arguments of the pack functions
+// live there, so that an access which assumes more than alignof(V) (a reinterpret_cast load of the whole word) is a misaligned access
+// that the monitored replay (C20) can see.  The values are unchanged.
+template<class V> struct MinAligned {
+    alignas(64) unsigned char buf[64 + sizeof(V) + 64]; V* p;
+    explicit MinAligned(V const& v) { p = reinterpret_cast<V*>(buf + alignof(V)); new (p) V(v); }
+    V const& get() const { return *p; }
+};
 // generic driver.  W = packed word type, V = unpacked vector/scalar wrapper (vec<L,T>)
 template<class W, class V, class PACK, class UNPACK>
 void drive(const char* name, PACK pack, UNPACK unpack, const std::vector<V>& inputs, bool do_words = true) {
     if (do_words) for (uint64_t b : words<W>()) {
         W p = from_bits<W>(b);
-        V v = unpack(p); W p2 = pack(v); V v2 = unpack(p2);
+        V v = unpack(p); MinAligned<V> mv(v); W p2 = pack(mv.get()); V v2 = unpack(p2);
         Ev("rt").str("fmt", name).arg(p).val("v", v).val("p2", p2).val("v2", v2).emit();
     }
-    for (const V& x : inputs) { W p = pack(x); V u = unpack(p); Ev("pk").str("fmt", name).arg(x).res(p).val("u", u).emit(); }
+    for (const V& x : inputs) { MinAligned<V> mx(x); W p = pack(mx.get()); V u = unpack(p); Ev("pk").str("fmt", name).arg(x).res(p).val("u", u).emit(); }
 }
 template<class V> std::vector<V> int_inputs() {
     typedef typename V::value_type T; std::vector<V> out; std::vector<uint64_t> lat = int_lattice<T>();
